@@ -39,6 +39,12 @@ case "${1:-}" in
     case "$id" in
       C10|C16|C17|C18|C19) build_cli ;;
     esac
+    if [ "$id" = "C16" ] && [ "$tier" = "thorough" ]; then
+      # the shipped profile (panic = "abort", LTO, opt-level z) is spot-checked by the thorough tier
+      if cargo build --release --manifest-path /repo/Cargo.toml --bin cteepbd --target-dir "$VERIF/.build/repo-release" >"$VERIF/.build/cli-release-build.log" 2>&1; then
+        export VERIF_CLI_RELEASE="$VERIF/.build/repo-release/release/cteepbd"
+      fi
+    fi
     exec "$VERIF/.build/harness/release/vcheck" "$id" --tier "$tier"
     ;;
   *)
